@@ -229,6 +229,7 @@ func GenConfig(t *rapid.T, lss []map[string]string, p GenParams) (Config, int, i
 		n := rapid.IntRange(0, 2).Draw(t, "ninh")
 		for i := 0; i < n; i++ {
 			r := InhibitRule{Source: []ref.Matcher{genHitMatcher(t, lss, "is")}, Target: []ref.Matcher{genHitMatcher(t, lss, "it")}}
+			r.Name = sampled(t, "iname", "", "", "outage", "outage", "other")
 			for _, n := range gen.UniNames {
 				if rapid.IntRange(0, 3).Draw(t, "ieq") == 0 {
 					r.Equal = append(r.Equal, n)
@@ -299,14 +300,25 @@ func GenScenario(t *rapid.T, p GenParams) Scenario {
 		if rc := cfg.ReceiverByName(rt.Receiver); rc != nil && len(rc.Integrations) > 1 {
 			idx = rc.IDs()[rapid.IntRange(0, len(rc.Integrations)-1).Draw(t, "flapidx")]
 		}
-		slow := sampled(t, "flapslow", 5, 20)
+		slow, slowUs := sampled(t, "flapslow", 5, 20, -1), 0
+		if slow < 0 {
+			// accepted half a millisecond before the next tick: the delivery of that tick is recorded within the same
+			// wall-clock second
+			slow, slowUs = gi-1, 999_500
+		}
 		sc.Steps = append(sc.Steps,
 			Step{Dt: t0, Op: "post", Alerts: []PostAlert{{LS: ls, End: ip(3600)}}},
-			Step{Dt: 1, Op: "behave", Behave: &Behave{Receiver: rt.Receiver, Idx: idx, Kind: "slow", D: slow}},
+			Step{Dt: 1, Op: "behave", Behave: &Behave{Receiver: rt.Receiver, Idx: idx, Kind: "slow", D: slow, Us: slowUs}},
 		)
 		// resolve somewhere after the first flush
 		rAt := t0 + 1 + gw + sampled(t, "flapres", 2, 10, 40)
-		sc.Steps = append(sc.Steps, Step{Dt: rAt - (t0 + 1), Op: "post", Alerts: []PostAlert{{LS: ls, End: ip(-1)}}})
+		at := t0 + 1
+		if slowUs > 0 {
+			// only the first delivery is slow: the receiver answers promptly again from one second after it began
+			sc.Steps = append(sc.Steps, Step{Dt: gw + 1, Op: "behave", Behave: &Behave{Receiver: rt.Receiver, Idx: idx, Kind: "ok"}})
+			at += gw + 1
+		}
+		sc.Steps = append(sc.Steps, Step{Dt: rAt - at, Op: "post", Alerts: []PostAlert{{LS: ls, End: ip(-1)}}})
 		// next tick at t0 + gw + k*gi >= rAt
 		kk := 0
 		for t0+gw+kk*gi < rAt {
